@@ -7,7 +7,7 @@
 From Coq Require Import String List NArith ZArith Bool.
 From J5V.lib Require Import Text Outcome.
 From J5V.model Require Import BclLexer BclParser BclFmt.
-From J5V.proofs Require Import BclPosProofs BclLexerProofs BclParserProofs BclFmtProofs BclFmtLitProofs BclReflowProofs BclLexLitProofs.
+From J5V.proofs Require Import BclPosProofs BclLexerProofs BclParserProofs BclFmtProofs BclFmtLitProofs BclReflowProofs BclLexLitProofs BclFmtSeqProofs BclFragWfProofs.
 Import ListNotations.
 
 (* ---- the position-free document of a fragment list -------------------------------------------- *)
@@ -134,6 +134,22 @@ Theorem C09_token_roundtrip : forall fuel s t s' tail s2,
   lexes_to s2 (ty t) (lit t) tail.
 Proof. exact token_roundtrip. Qed.
 Print Assumptions C09_token_roundtrip.
+
+(* sequence level: a line made of rendered tokens and single spaces, in which every token has a
+   literal of its kind and cannot be extended by what follows it, is read back token by token *)
+Theorem C09_sequence_relex : forall items tail s, items_ok items tail -> ends_with_tok items ->
+  rest s = render_items items ++ tail ->
+  exists s', lex_run s (item_toks items) s' /\ rest s' = tail.
+Proof. exact items_relex. Qed.
+Print Assumptions C09_sequence_relex.
+
+(* fragment level, first half: everything the formatter renders is renderable — each token kept in a
+   fragment has a literal of its kind, references are non-empty identifier lists, tag values are
+   strings, a comment / description used as a value ends its statement (never inside an array,
+   never followed by a trailing comment), header descriptions exclude brace and comment *)
+Theorem C09_fragments_renderable : forall data fs, collect_fragments data = Ok fs -> Forall frag_lx fs.
+Proof. exact collect_fragments_lx. Qed.
+Print Assumptions C09_fragments_renderable.
 
 (* idempotence of the description re-flow (finding 22 lived here): feeding the re-flowed lines back
    gives the same lines, for every text and every width (also negative) *)
